@@ -648,7 +648,92 @@ def r1711(ctx):
         ctx.ok(rid, comp[0], "set_result / set_exception are selected by control flow alone (try / except of the unit's own execution)")
 
 
+def _may_commit(cls):
+    """Methods of REPEX_state that write restart.toml, directly or through self-calls (fixpoint)."""
+    methods = {s.name: s for s in cls.body if isinstance(s, FUNC)}
+    calls = {}
+    for name, m in methods.items():
+        calls[name] = {c.func.attr for c in walk_local(m) if isinstance(c, ast.Call) and isinstance(c.func, ast.Attribute) and isinstance(c.func.value, ast.Name) and c.func.value.id == "self"}
+        # properties read as attributes (self.prob) are not followed: none of them commits (checked: a property that calls write_toml is reported below)
+    commit = {"write_toml"} if "write_toml" in methods else set()
+    changed = True
+    while changed:
+        changed = False
+        for name, cs in calls.items():
+            if name not in commit and cs & commit:
+                commit.add(name)
+                changed = True
+    return methods, commit
+
+
+def r1712(ctx):
+    """The step counter reaches the disk only when it equals the number of consumed results."""
+    rid = "R-17.12"
+    tree = ctx.tree
+    cls = tree.cls(REPEX, "REPEX_state")
+    methods, commit = _may_commit(cls)
+    if "write_toml" not in commit or "treat_output" not in commit:
+        raise AnalysisError(f"R-17.12: write_toml / treat_output not among the committing methods {sorted(commit)}")
+
+    def commits_in(f, recv):
+        out = []
+        for c in walk_local(f):
+            if isinstance(c, ast.Call) and isinstance(c.func, ast.Attribute) and c.func.attr in commit and isinstance(c.func.value, ast.Name) and c.func.value.id == recv:
+                out.append(c)
+        return out
+
+    # (a) inside the scheduler state: from an increment of the counter no commit is reachable in the same method
+    ninc = 0
+    for name, m in methods.items():
+        if any(isinstance(d, ast.Name) and d.id == "property" or isinstance(d, ast.Attribute) and d.attr == "setter" for d in m.decorator_list):
+            continue
+        incs = [s for s in walk_local(m) if isinstance(s, (ast.AugAssign, ast.Assign)) and any(is_self_attr(t, "cstep") for t in (s.targets if isinstance(s, ast.Assign) else [s.target]))]
+        incs += [s for s in walk_local(m) if isinstance(s, (ast.AugAssign, ast.Assign)) and any(isinstance(t, ast.Subscript) and last_key(t) == "cstep" for t in (s.targets if isinstance(s, ast.Assign) else [s.target]))]
+        if not incs:
+            continue
+        cfg = cfg_of(m)
+        for inc in incs:
+            ninc += 1
+            late = [c for c in commits_in(m, "self") if c.func.attr != "treat_output" and cfg.reaches(cfg.node_of(inc), cfg.node_of(c))]
+            if late:
+                ctx.bad(rid, late[0], f"REPEX_state.{name} writes restart.toml (`{short(late[0], 40)}`) after it has advanced the step counter (`{short(inc, 40)}`) and before the result that step counts is consumed: "
+                        "the counter on disk is one larger than the number of completed moves for the whole wait - a restart from there performs one move too few",
+                        construct=f"{name}: commit after the step counter was advanced")
+            else:
+                ctx.ok(rid, inc, f"REPEX_state.{name}: no commit is reachable after the counter is advanced")
+    if ninc == 0:
+        raise AnalysisError("R-17.12: no statement advancing the step counter found in REPEX_state")
+    # (b) in the main loop: between loop() (which advances the counter) and treat_output() (which consumes the result) nothing commits
+    f = tree.func(SCHED, "scheduler")
+    cfg = cfg_of(f)
+    loops = [w for w in walk_local(f) if isinstance(w, ast.While) and any(isinstance(c, ast.Call) and isinstance(c.func, ast.Attribute) and c.func.attr == "loop" for c in ast.walk(w.test))]
+    if not loops:
+        raise AnalysisError("R-17.12: the `while state.loop()` of scheduler() was not found")
+    for w in loops:
+        recv = next(c.func.value.id for c in ast.walk(w.test) if isinstance(c, ast.Call) and isinstance(c.func, ast.Attribute) and c.func.attr == "loop" and isinstance(c.func.value, ast.Name))
+        body_calls = [c for st in w.body for c in ast.walk(st) if isinstance(c, ast.Call) and isinstance(c.func, ast.Attribute) and isinstance(c.func.value, ast.Name) and c.func.value.id == recv and c.func.attr in commit]
+        consume = [c for c in body_calls if c.func.attr == "treat_output"]
+        if not consume:
+            ctx.bad(rid, w, "the main loop never hands a result to treat_output")
+            continue
+        head = cfg.node_of(w.test)
+        cn = [cfg.node_of(c) for c in consume]
+        bad = False
+        for c in body_calls:
+            if c.func.attr == "treat_output":
+                continue
+            n = cfg.node_of(c)
+            if cfg.reaches(head, n, avoid=cn):
+                bad = True
+                ctx.bad(rid, c, f"scheduler(): `{short(c, 40)}` writes restart.toml between loop() (which advances the step counter) and treat_output() (which consumes the result that step counts), or on a cycle that consumed nothing: the counter on disk exceeds the completed moves",
+                        construct=f"scheduler: {c.func.attr} commits before treat_output in the cycle")
+        if not bad:
+            ctx.ok(rid, w, f"main loop: of the committing calls {sorted({c.func.attr for c in body_calls})} only treat_output is reachable from the loop head without passing treat_output")
+
+
 def run(ctx):
+    ctx.rule("R-17.12", "the step counter on disk equals the number of consumed results: nothing commits between the advance of the counter (loop) and the consumption of that step's result (treat_output)", floor=2)
+    ctx.attempt(r1712, ctx)
     ctx.rule("R-17.4", "completed jobs leave the in-flight record (removal before the commit; selector representation agrees with all filling sites)", floor=4)
     ctx.rule("R-17.6", "the restart file is refreshed completely at every commit: each [current] key write_toml maintains is stored on every path to the dump (a finished run persists an empty in-flight record)", floor=3)
     ctx.rule("R-17.5", "step arithmetic: the comparators of initiate(), loop() and the submission guard give exactly tsteps - c0 consumed results and the same number of submitted jobs (linear counting over c0, tsteps, workers)", floor=4)
@@ -676,6 +761,10 @@ def run(ctx):
 
 
 VARIANTS = [
+    B("c17-loop-commits-the-advanced-counter", REPEX, "        return self.cstep <= self.tsteps\n", "        self.write_toml()\n\n        return self.cstep <= self.tsteps\n", "R-17.12", control=True, why="seeded C17_n"),
+    B("c17-main-loop-commits-before-the-result", SCHED, "        future = futures.as_completed()\n", "        state.write_toml()\n        future = futures.as_completed()\n", "R-17.12", why="sibling of C17_n in the caller"),
+    K("c17-keep-commit-before-the-counter-advances", REPEX, "        self.cstep += 1\n\n        if self.printing() and self.cstep <= self.tsteps:", "        self.write_toml()\n        self.cstep += 1\n\n        if self.printing() and self.cstep <= self.tsteps:", why="before the advance the counter equals the consumed results"),
+    K("c17-keep-second-commit-after-the-result", SCHED, "            worker_md_items = state.treat_output(future.result())\n", "            worker_md_items = state.treat_output(future.result())\n            state.write_toml()\n", why="after treat_output counter and results agree"),
     B("c17-failure-flag-survives-between-units", ASYNC, "        while not stop_event.is_set():\n            try:\n                # Unpack queue element\n                md_item, future = queue.get_nowait()\n", "        failure = None\n        while not stop_event.is_set():\n            try:\n                # Unpack queue element\n                md_item, future = queue.get_nowait()\n", "R-17.11", control=True, also=[(ASYNC, "                    future.set_result(md_item)\n                except Exception as e:\n                    # Pass the exception up in the future\n                    future.set_exception(e)\n", "                except Exception as e:\n                    failure = e\n                if failure is None:\n                    future.set_result(md_item)\n                else:\n                    future.set_exception(failure)\n")], why="seeded C17_m"),
     K("c17-keep-failure-flag-reset-per-unit", ASYNC, "                    future.set_result(md_item)\n                except Exception as e:\n                    # Pass the exception up in the future\n                    future.set_exception(e)\n", "                    failure = None\n                except Exception as e:\n                    failure = e\n                if failure is None:\n                    future.set_result(md_item)\n                else:\n                    future.set_exception(failure)\n"),
     B("c17-stop-waits-at-most-five-seconds", "infretis/asyncrunner.py", "        asyncio.run(self.wait_for_tasks_to_end())\n", "        try:\n            asyncio.run(asyncio.wait_for(self.wait_for_tasks_to_end(), 5.0))\n        except asyncio.TimeoutError:\n            logger.warning(\"Background tasks took too long to end\")\n", "R-17.7", control=True, why="seeded C17_l"),
